@@ -10,4 +10,4 @@ Extraction "oracle_model.ml"
   zle zlt zeq zadd zsub zmul zdiv z_to_n two62 two18 max_uint64
   init_sys step lowres
   init_vsys vstep voutcome_of
-  stale_ts next_interval set_interval adjust set_last_arr min_interval mock_get_ts set_external cw_bound commit_txn ts_with_retry.
+  stale_ts next_interval set_interval adjust set_last_arr min_interval mock_get_ts set_external cw_bound commit_txn ts_with_retry lstep init_lstate.
